@@ -30,7 +30,9 @@ def package(features: list[str], k: int) -> Path:
                  "def fo2(o: OrderedDict[str, int], s: Sized, d: deque[int]) -> int:", "    ...", ""]
     if "inherited-twice" in f:
         main += ["class _Base:", '    def shared(self, a: Literal["z"] | None = None, *more: int) -> int:', "        ...", "",
-                 "class SubA(_Base):", "    pass", "", "class SubB(_Base):", "    pass", ""]
+                 "class SubA(_Base):", "    pass", "", "class SubB(_Base):", "    pass", "",
+                 "class PubX:", "    pass", "", "class PubY:", "    pass", "",
+                 "class SubC(PubX, PubY, _Base):", "    pass", "", "class SubD(_Base, PubX, PubY):", "    def own(self) -> int:", "        ...", ""]
     files = {"__init__.py": "", "mainmod.py": "\n".join(main)}
     if "alias-reexport" in f:
         files["__init__.py"] = "from .inner._impl import Hidden as Shown\nfrom .inner._impl import helper as shown_helper\n"
